@@ -2,6 +2,7 @@ SPECIFICATION Spec
 CONSTANTS
   MaxLen = 4
   EmitLen = 3
+  Wide = FALSE
   EmitMod = 11
 INVARIANTS NfcIdempotent NfcPreservesEquivalence NfcOfEquivalentSpellings PunycodeRoundTrip
   LowerCaseAscii Idempotent StableUnderFullProcessing RoundTrip CaseInsensitive IgnoredIgnored
